@@ -104,6 +104,35 @@ JudgeUpdates(desc, e) ==
   THEN "update.importable"
   ELSE ""
 
+(* ---- class hierarchies: SECoP base class and Feature mixins ---- *)
+(* The generated class is VMod(direct features.., VLim, VMid(mid features.., VBase(base features.., <base>)))  *)
+(* A feature plan is a sequence of [name, how]: a Feature mixin (the real frappy.features.HasOffset or a       *)
+(* generated class VFeatA / VFeatB with one parameter) mixed in "direct"ly, or inherited through one ("mid")   *)
+(* or two ("base") intermediate classes.  The description has to name, in MRO order, every class of the MRO     *)
+(* that has Feature as a direct base, and the highest SECoP base class.                                         *)
+FeatPar(wire, dt, init, f) ==
+  [kind |-> "param", wire |-> wire, dt |-> dt, ro |-> FALSE, const |-> Null, init |-> init, lim |-> NoLim,
+   hooks |-> <<>>, drv |-> "absent", ret |-> Null, islimit |-> FALSE, level |-> "X", feature |-> f]
+FeatAccs == [VFeatA |-> [fa |-> FeatPar("_fa", DTi, Num(3), "VFeatA")],
+             VFeatB |-> [fb |-> FeatPar("_fb", DTs, SAb, "VFeatB")],
+             HasOffset |-> [offset |-> FeatPar("_offset", [t |-> "double", lo |-> -1000000, hi |-> 1000000], Num(0), "HasOffset")]]
+RECURSIVE AddFeats(_, _)
+AddFeats(accs, plan) == IF plan = <<>> THEN accs ELSE AddFeats(accs @@ FeatAccs[plan[1].name], Tail(plan))
+WithFeatures(sh, plan) == [m \in DOMAIN sh |-> AddFeats(sh[m], plan)]
+HowSeq(plan, how) == LET sel == SelectSeq(plan, LAMBDA e : e.how = how) IN MkSeq([i \in 1 .. Len(sel) |-> sel[i].name], Len(sel))
+FeaturesOf(plan) == HowSeq(plan, "direct") \o HowSeq(plan, "mid") \o HowSeq(plan, "base")
+IfaceOf(base) == IF base = "Module" THEN <<>> ELSE <<base>>
+F(name, how) == [name |-> name, how |-> how]
+Variants == <<[feats |-> <<>>, base |-> "Module"],
+              [feats |-> <<F("VFeatA", "direct")>>, base |-> "Module"],
+              [feats |-> <<F("VFeatA", "mid")>>, base |-> "Module"],
+              [feats |-> <<F("HasOffset", "base")>>, base |-> "Readable"],
+              [feats |-> <<F("VFeatA", "direct"), F("VFeatB", "mid")>>, base |-> "Module"],
+              [feats |-> <<F("HasOffset", "mid"), F("VFeatA", "base")>>, base |-> "Drivable"],
+              [feats |-> <<F("VFeatB", "base")>>, base |-> "Writable"],
+              [feats |-> <<F("HasOffset", "direct"), F("VFeatB", "direct")>>, base |-> "Module"],
+              [feats |-> <<>>, base |-> "Drivable"]>>
+
 (* the describe record d = [desc, expect |-> [m |-> [wires, iface, features, units]], iface, features, units, *)
 (*                          stable, strict, expdesc (Null if not known)]                         *)
 Structure(d) ==
@@ -111,8 +140,8 @@ Structure(d) ==
   ELSE IF ~d.stable THEN "Stable"
   ELSE IF DOMAIN d.desc # DOMAIN d.expect THEN "ExactlyExported.modules"
   ELSE IF \E m \in DOMAIN d.desc : DOMAIN d.desc[m] # SeqSet(d.expect[m].wires) THEN "ExactlyExported.accessibles"
-  ELSE IF \E m \in DOMAIN d.desc : d.iface[m] # d.expect[m].iface \/ d.features[m] # d.expect[m].features
-       THEN "InterfaceClassMatches"
+  ELSE IF \E m \in DOMAIN d.desc : d.iface[m] # d.expect[m].iface THEN "InterfaceClassMatches"
+  ELSE IF \E m \in DOMAIN d.desc : d.features[m] # d.expect[m].features THEN "FeaturesMatch"
   ELSE IF \E m \in DOMAIN d.desc : d.units[m] # d.expect[m].units THEN "MainUnitSubstituted"
   ELSE IF d.expdesc # Null /\ d.expdesc # d.desc THEN "DescriptionFaithful"
   ELSE ""
